@@ -25,7 +25,7 @@ func init() {
 		ID:       "C13",
 		Category: "model_checking",
 		Rule: "first life: a stream in {70 KB text, 300 B, a stream ending in a corrupt-input error, a truncated stream, streams cut inside a dynamic header / inside a stored block's length field / inside its payload, a 70 KB stored stream, every stream of the C03 fault catalogue read to its error, streams started through Reset(src, dict) with a 20- or 40000-byte dictionary (70 KB: the window slides over the place of the dictionary)} x read history in {nothing read, 1 byte, 10 bytes, all but the last byte, to the end/error, exactly 65535 / 65536 bytes (output window full)} x Read size {1 MiB, 7}; optionally Close (the pooled-Reader pattern); then Reset(second source [, dictionary]), while the fresh reference Reader already exists (two instances alive at once); " +
-			"second life: every stream of the short corpus, malformed streams whose back-references reach 1, 2, 100 and 32768 bytes before their own start, containers of the same kind, raw streams with a preset dictionary of 20 and of 40000 bytes (only the last 32 KiB count; copies from its end, from 32000 back and from the part out of reach; malformed back-references into and beyond the dictionary) through flate's Reset(src, dict) against NewReaderDict, and for zlib every combination {first stream with/without dictionary} x {second with/without} incl. two different dictionaries of one length; every dictionary is handed over in one and the same caller-owned slice that is overwritten after the call; flate, gzip (also member stepping), zlib; second source plain, a 64-byte bufio, one byte per call, or one byte per call through a 16-byte bufio; " +
+			"second life: every stream of the short corpus, malformed streams whose back-references reach 1, 2, 100 and 32768 bytes before their own start, containers of the same kind, raw streams with a preset dictionary of 20 and of 40000 bytes (only the last 32 KiB count; copies from its end, from 32000 back and from the part out of reach; malformed back-references into and beyond the dictionary) through flate's Reset(src, dict) against NewReaderDict, and for zlib every combination {first stream with/without dictionary} x {second with/without} incl. two different dictionaries of one length; every dictionary is handed over in one and the same caller-owned slice that is overwritten after the call; flate, gzip (also member stepping, and Multistream(false) set in the first life only), zlib; second source plain, a 64-byte bufio, one byte per call, or one byte per call through a 16-byte bufio; " +
 			"first source plain, or a 64-byte or default-size *bufio.Reader owned by the caller (then also with a life before it on a plain source: three sources in a row); oracle: bytes and kind of error of the second life identical to a fresh Reader on the same input, and the first source untouched after Reset (no further Read call; the caller still reads from it exactly what was left); non-trivial = the first life decoded at least one byte",
 		Assumptions: []string{"a freshly constructed Reader is the reference model"},
 		Quick:       TierSpec{MaxDev: -1, Shards: 4, ShardDepth: 3, BudgetS: 600},
@@ -399,6 +399,7 @@ func c13Harness(cfg *Cfg) func(x *mc.Exec) {
 				return
 			}
 			c2 := gz[x.Choose(len(gz), "second")]
+			ms1 := x.Choose(2, "multistream-off-in-first-life") == 1
 			var zr *fgzip.Reader
 			var rerr error
 			if pi := Guard(func() {
@@ -415,6 +416,9 @@ func c13Harness(cfg *Cfg) func(x *mc.Exec) {
 				}
 				if err != nil {
 					panic(mc.HarnessError{Msg: "corpus container rejected: " + err.Error()})
+				}
+				if ms1 {
+					zr.Multistream(false) // an option set in the first life must not survive Reset
 				}
 				firstRead(zr, hist, len(c1.payload))
 				closeIt(zr)
